@@ -200,4 +200,4 @@ QUERIES = [
           bounds=lambda tier: {"alphabet": ALPHA, "length": "0..3 (all 259 strings, enumerated by the solver through the index variables)"},
           outside=["names over the full Unicode identifier classes"]),
 ]
-BUDGET = {"quick": 420, "thorough": 1500}
+BUDGET = {"quick": 420, "thorough": 1200}
